@@ -151,6 +151,9 @@ META["rule"] += (
 META["rule"] += (
     " " + 'Added later: `HilbertClimateNetwork.set_directed` as a history step; `clear_cache` / `cache_clear` and reads of the derived matrices (phase shift, coherence, correlation lag / strength) between setters.')
 
+META["rule"] += (
+    " " + "Added after the fifth round: family 'undefined entries' (explicit matrices with NaN rows / pairs, Tsonis / Spearman networks of data with constant series; threshold mode): defined pairs follow the rule on the absolute value, undefined ones are never linked; before half of the re-derivations a known threshold is set, every other time exactly 0 (int, float, float32), and the state afterwards is judged against it; switches as bool / np.bool_ / 0-1.")
+
 G = 64.0
 GUARD = 1e-4
 
